@@ -2906,7 +2906,18 @@ SKIP_HSHEADER_PARSE:
             psTraceErrr("Invalid NewSessionTicket message\n");
             return MATRIXSSL_ERROR;
         }
-        if (ssl->sid->sessionTicket == NULL || ssl->sid->sessionTicketLen == 0)
+        if (hsLen > SSL_MAX_PLAINTEXT_LEN - 1024)
+        {
+            /* A ticket of this size could never be offered again: the
+               ClientHello that carries it must fit one record (and its
+               size is computed in 16 bits). Do not keep it; a ticket held
+               from an earlier handshake has been superseded. */
+            c += hsLen;
+            psFree(ssl->sid->sessionTicket, ssl->sid->pool);
+            ssl->sid->sessionTicket = NULL;
+            ssl->sid->sessionTicketLen = 0;
+        }
+        else if (ssl->sid->sessionTicket == NULL || ssl->sid->sessionTicketLen == 0)
         {
             /* First time receiving a session ticket */
             ssl->sid->sessionTicketLen = hsLen;
